@@ -49,6 +49,12 @@ fn setS(r: &'str) {
     r = "changed";
 }
 
+fn grow(r: &'[]i32) {
+    append(r, 1);
+}
+
+type BoxD struct { .F: []i32, .N: i32 };
+
 fn fail() -> str ! i32 {
     return "bad"!;
 }
@@ -105,6 +111,30 @@ func c06Kinds() []c06Kind {
 			header: [2]string{"fn work()", "fn work()"}, call: "work();",
 			local:  [2]string{"const a: [3]i32 = [1, 2, 3];", "let a: [3]i32 = [1, 2, 3];"},
 			places: []c06Place{{"const-array", "a[0]", "i32", "a[0]"}, {"const-array", "a[-1]", "i32", "a[2]"}, {"const-array", "(a)[1]", "i32", "a[1]"}, {"const-array", "a", "arr", "a[0]"}}},
+		{name: "const-dyn-array",
+			header: [2]string{"fn work()", "fn work()"}, call: "work();",
+			local:  [2]string{"const d: []i32 = [1, 2, 3];", "let d: []i32 = [1, 2, 3];"},
+			places: []c06Place{{"const-dyn-array", "d[0]", "i32elem", "d[0]"}, {"const-dyn-array", "d[-1]", "i32elem", "d[2]"}, {"const-dyn-array", "(d)[1]", "i32elem", "d[1]"}, {"const-dyn-array", "d", "dyn", "d[0]"}}},
+		{name: "const-nested-dyn-array",
+			header: [2]string{"fn work()", "fn work()"}, call: "work();",
+			local:  [2]string{"const g: [][]i32 = [[1, 2], [3]];", "let g: [][]i32 = [[1, 2], [3]];"},
+			places: []c06Place{{"const-nested-dyn-array", "g[0][1]", "i32elem", "g[0][1]"}, {"const-nested-dyn-array", "g", "dyn2", "g[0][0]"}}},
+		{name: "const-struct-with-dyn-field",
+			header: [2]string{"fn work()", "fn work()"}, call: "work();",
+			local:  [2]string{"const bd: BoxD = { .F = [1, 2], .N = 3 };", "let bd: BoxD = { .F = [1, 2], .N = 3 };"},
+			places: []c06Place{{"const-struct-with-dyn-field", "bd.F[0]", "i32elem", "bd.F[0]"}, {"const-struct-with-dyn-field", "bd.F", "dyn", "bd.F[0]"}, {"const-struct-with-dyn-field", "bd.N", "i32", "bd.N"}}},
+		{name: "const-str",
+			header: [2]string{"fn work()", "fn work()"}, call: "work();",
+			local:  [2]string{"const cs: str = \"abc\";", "let cs: str = \"abc\";"},
+			places: []c06Place{{"const-str", "cs", "str", "cs"}}},
+		{name: "const-map",
+			header: [2]string{"fn work()", "fn work()"}, call: "work();",
+			local:  [2]string{"const cm := {\"a\" => 1} as map[str]i32;", "let cm := {\"a\" => 1} as map[str]i32;"},
+			places: []c06Place{{"const-map", "cm[\"a\"]", "mapelem", "len(cm)"}, {"const-map", "cm", "mapwhole", "len(cm)"}}},
+		{name: "const-optional",
+			header: [2]string{"fn work()", "fn work()"}, call: "work();",
+			local:  [2]string{"const co: i32? = 3;", "let co: i32? = 3;"},
+			places: []c06Place{{"const-optional", "co", "opt", "co ?? 0"}}},
 		{name: "global-const",
 			modDecl: [2]string{"const G: i32 = 7;\nconst GP: P = " + pLit + ";", "let G: i32 = 7;\nlet GP: P = " + pLit + ";"},
 			header:  [2]string{"fn work()", "fn work()"}, call: "work();",
@@ -192,6 +222,13 @@ func c06Forms(pty string) []c06Form {
 			{"mut-borrow", func(p string) string { return "let m: &'i32 = &'" + p + ";" }},
 			{"pass-mut", func(p string) string { return "incI(&'" + p + ");" }},
 		}
+	case "i32elem": // an element of a dynamic array: not addressable and no ++/-- in this language, so only stores
+		return []c06Form{
+			{"assign", func(p string) string { return p + " = 9;" }},
+			{"add-assign", func(p string) string { return p + " += 1;" }},
+			{"sub-assign", func(p string) string { return p + " -= 1;" }},
+			{"mul-assign", func(p string) string { return p + " *= 2;" }},
+		}
 	case "i32ref": // a reference variable r: &i32 used as a whole (assignment writes through)
 		return []c06Form{
 			{"assign", func(p string) string { return p + " = 9;" }},
@@ -225,6 +262,34 @@ func c06Forms(pty string) []c06Form {
 			{"assign", func(p string) string { return p + " = [7, 8, 9];" }},
 			{"mut-borrow", func(p string) string { return "let m: &'[3]i32 = &'" + p + ";" }},
 			{"pass-mut", func(p string) string { return "incArr(&'" + p + ");" }},
+		}
+	case "dyn":
+		return []c06Form{
+			{"assign", func(p string) string { return p + " = [7, 8];" }},
+			{"mut-borrow", func(p string) string { return "let m: &'[]i32 = &'" + p + ";" }},
+			{"pass-mut", func(p string) string { return "grow(&'" + p + ");" }},
+			{"append", func(p string) string { return "append(&'" + p + ", 9);" }},
+		}
+	case "dyn2":
+		return []c06Form{
+			{"assign", func(p string) string { return p + " = [[7]];" }},
+			{"mut-borrow", func(p string) string { return "let m: &'[][]i32 = &'" + p + ";" }},
+			{"append", func(p string) string { return "append(&'" + p + ", [9]);" }},
+		}
+	case "mapelem":
+		return []c06Form{
+			{"assign", func(p string) string { return p + " = 2;" }},
+		}
+	case "mapwhole":
+		return []c06Form{
+			{"assign", func(p string) string { return p + " = {\"b\" => 2} as map[str]i32;" }},
+			{"mut-borrow", func(p string) string { return "let m: &'map[str]i32 = &'" + p + ";" }},
+		}
+	case "opt":
+		return []c06Form{
+			{"assign", func(p string) string { return p + " = 4;" }},
+			{"assign-none", func(p string) string { return p + " = none;" }},
+			{"mut-borrow", func(p string) string { return "let m: &'i32? = &'" + p + ";" }},
 		}
 	case "str":
 		return []c06Form{
@@ -280,7 +345,7 @@ func c06Program(k c06Kind, variant int, body string, withWitness string) string 
 func checkC06(c *Ctx) error {
 	r := c.R
 	r.Exhaustive = true
-	r.Rule = "finite product enumerated completely: immutable place kind {local const scalar/struct/array, module const, const inside a method, two-variable for index (over dynamic arrays, ranges, strings and map keys, with a named and with a discarded `_` value variable), catch error variable, &T parameter, &T receiver, &T local} x access path {ident, .f, .f.g, [k], (x), whole} x mutation form {=, +=, -=, *=, ++, --, &' borrow, pass to &' parameter, &'-receiver method} x context {plain, if, else, while, match arm, closure, block}; every mutant must be rejected by the real compiler; control = same program with the binding made mutable (or without the mutation when no mutable counterpart exists) must be accepted; non-trivial = a distinct mutant whose control was accepted"
+	r.Rule = "finite product enumerated completely: immutable place kind {local const scalar/struct/array, const dynamic array (elements, whole, nested, held in a const struct), const string, const map, const optional, module const, const inside a method, two-variable for index (over dynamic arrays, ranges, strings and map keys, with a named and with a discarded `_` value variable), catch error variable, &T parameter, &T receiver, &T local} x access path {ident, .f, .f.g, [k], (x), whole} x mutation form {=, +=, -=, *=, ++, --, &' borrow, pass to &' parameter, &'-receiver method, append} x context {plain, if, else, while, match arm, closure, block}; every mutant must be rejected by the real compiler; control = same program with the binding made mutable (or without the mutation when no mutable counterpart exists) must be accepted; non-trivial = a distinct mutant whose control was accepted"
 	r.Assumptions = []string{"rejection for any reason counts as rejected only when the control is accepted, so the verdict is attributable to the mutation"}
 	kinds := c06Kinds()
 	type cse struct {
